@@ -177,7 +177,7 @@ fn check_storage(n: usize) {
     check_result(&s, n, &res, count, &s.sel.storage_config);
 }
 
-// @verif property=C16 class=bounded bound="0..=3 candidates with distinct fully symbolic ids; trust any f64 incl. NaN/inf/out-of-range; count 0..=5; trust_weight in [0,1]" fns=TrustAwarePeerSelector::select_peers,TrustAwarePeerSelector::select_peers_with_config,TrustAwarePeerSelector::compute_score,TrustAwarePeerSelector::get_trust_for_node,xor_distance uses=check_select,check_result,setup,any_cfg tier=quick,thorough panic=violation
+// @verif property=C16 class=bounded bound="0..=3 candidates with distinct fully symbolic ids; trust any f64 incl. NaN/inf/out-of-range; count 0..=5; trust_weight in [0,1]" fns=TrustAwarePeerSelector::select_peers,TrustAwarePeerSelector::select_peers_with_config,TrustAwarePeerSelector::compute_score,TrustAwarePeerSelector::get_trust_for_node,xor_distance uses=check_select,check_result,setup,any_cfg tier=parked panic=violation
 #[kani::proof]
 #[kani::unwind(34)]
 fn c16_select_peers_3() {
@@ -188,7 +188,7 @@ fn c16_select_peers_3() {
     }
 }
 
-// @verif property=C16 class=bounded bound="2..=3 candidates whose ids differ from the key only in the low-order 16 bytes" fns=TrustAwarePeerSelector::select_peers,TrustAwarePeerSelector::compute_score,xor_distance uses=check_select,check_result,setup,any_cfg tier=quick,thorough panic=violation
+// @verif property=C16 class=bounded bound="2..=3 candidates whose ids differ from the key only in the low-order 16 bytes" fns=TrustAwarePeerSelector::select_peers,TrustAwarePeerSelector::compute_score,xor_distance uses=check_select,check_result,setup,any_cfg tier=parked panic=violation
 #[kani::proof]
 #[kani::unwind(34)]
 fn c16_select_peers_low_order_ids() {
@@ -196,7 +196,7 @@ fn c16_select_peers_low_order_ids() {
     check_select(3, true);
 }
 
-// @verif property=C16 class=bounded bound="0..=3 candidates; shipped storage configuration" fns=TrustAwarePeerSelector::select_storage_peers,TrustSelectionConfig::for_storage uses=check_storage,check_result,setup,any_cfg tier=quick,thorough panic=violation
+// @verif property=C16 class=bounded bound="0..=3 candidates; shipped storage configuration" fns=TrustAwarePeerSelector::select_storage_peers,TrustSelectionConfig::for_storage uses=check_storage,check_result,setup,any_cfg tier=parked panic=violation
 #[kani::proof]
 #[kani::unwind(34)]
 fn c16_select_storage_peers_3() {
